@@ -311,23 +311,15 @@ theorem format_statistic_eq (stat : Nat) (pct : PyV) :
   cases pct <;> simp only [String.join, List.foldl, Id.run, String.empty_append] <;>
     first | exact h1 _ | rfl
 
-theorem profile_loop {α β : Type} (n : Nat) (g : α → β) (use : List α)
+theorem profile_loop {α β : Type} (g : α → β) (use : List α)
     (body : α → List β → Except PyErr (ForInStep (List β)))
-    (h0 : n = 0 → ∀ a s, body a s = throw PyErr.zeroDiv)
-    (h1 : n ≠ 0 → ∀ a s, body a s = pure (ForInStep.yield (s ++ [g a]))) :
-    forIn use [] body
-      = if (decide (n = 0) && !use.isEmpty) = true then throw PyErr.zeroDiv else pure (use.map g) := by
-  by_cases hn : n = 0
-  · cases use with
-    | nil => simp
-    | cons x xs =>
-      simp only [List.forIn_cons, h0 hn, hn, decide_true, List.isEmpty_cons, Bool.not_false, Bool.and_self, if_true]
-      rfl
-  · have hb : body = fun a s => pure (ForInStep.yield (s ++ [g a])) := by
-      funext a s; exact h1 hn a s
-    subst hb
-    rw [List.forIn_pure_yield_eq_foldl, foldl_append_map]
-    simp [hn]
+    (h1 : ∀ a s, body a s = pure (ForInStep.yield (s ++ [g a]))) :
+    forIn use [] body = pure (use.map g) := by
+  have hb : body = fun a s => pure (ForInStep.yield (s ++ [g a])) := by
+    funext a s; exact h1 a s
+  subst hb
+  rw [List.forIn_pure_yield_eq_foldl, foldl_append_map]
+  simp
 
 theorem validate_loop (cols : List String) (f : Frame) (hc : f.columns = cols) (l : List String) :
     (forIn l PUnit.unit (fun attr _ =>
@@ -357,25 +349,30 @@ theorem profile_table_for_join_eq (f : Frame) (attrs : Option (List String)) :
   generalize hB : (fun (attr : String) (__s : List (String × String × String × String)) =>
       if decide (Profiler.missingCount (f.col attr) > 0) = true then _ else _) = B
   have key : ∀ use : List String, forIn use [] B
-      = (if (decide (f.rows.length = 0) && !use.isEmpty) = true then throw PyErr.zeroDiv
-          else pure (use.map (fun a => (a, (Profiler.profileColumn (f.col a)).1,
-            (Profiler.profileColumn (f.col a)).2.1, (Profiler.profileColumn (f.col a)).2.2)))) := by
+      = pure (use.map (fun a => (a, (Profiler.profileColumn (f.col a)).1,
+            (Profiler.profileColumn (f.col a)).2.1, (Profiler.profileColumn (f.col a)).2.2))) := by
     intro use
-    apply profile_loop f.rows.length
-    · intro hn a s
-      rw [← hB]
-      simp only [hn, beq_self_eq_true, if_true]
-      split <;> rfl
-    · intro hn a s
-      rw [← hB]
-      have hne : (f.rows.length == 0) = false := by simpa using hn
-      simp only [hne, Bool.false_eq_true, if_false, pure_bind]
-      have hlen : (f.col a).length = f.rows.length := by simp [Frame.col]
-      unfold Profiler.profileColumn Profiler.uniqueCount Profiler.percent Profiler.comment
-      rw [hlen]
-      have hj : ∀ x : String, String.join ["Joining on this attribute will ignore ", x, " rows."]
-          = s!"Joining on this attribute will ignore {x} rows." := by
-        intro x; simp only [String.join, List.foldl, String.empty_append]; rfl
+    apply profile_loop
+    intro a s
+    rw [← hB]
+    have hlen : (f.col a).length = f.rows.length := by simp [Frame.col]
+    unfold Profiler.profileColumn Profiler.uniqueCount Profiler.percent Profiler.comment
+    rw [hlen]
+    have hj : ∀ x : String, String.join ["Joining on this attribute will ignore ", x, " rows."]
+        = s!"Joining on this attribute will ignore {x} rows." := by
+      intro x; simp only [String.join, List.foldl, String.empty_append]; rfl
+    by_cases hn : f.rows.length = 0
+    · -- a table without rows: the `else` branch, both percentages `0.0`
+      have hm0 : Profiler.missingCount (f.col a) = 0 := by
+        have := List.length_filter_le Cell.isMissing (f.col a)
+        unfold Profiler.missingCount; omega
+      have hu0 : Profiler.nunique (f.col a) = 0 := by
+        have hc : f.col a = [] := List.length_eq_zero_iff.mp (by omega)
+        rw [hc]; rfl
+      simp [hn, hm0, hu0]
+    · have hne : (f.rows.length == 0) = false := by simpa using hn
+      have hpos : 0 < f.rows.length := by omega
+      simp only [hne, hpos, hn, decide_true, Bool.false_eq_true, if_false, if_true, pure_bind]
       by_cases hm : Profiler.missingCount (f.col a) > 0
       · have hm0 : ¬ Profiler.missingCount (f.col a) = 0 := by omega
         simp [hm, hm0, hj]
@@ -384,10 +381,8 @@ theorem profile_table_for_join_eq (f : Frame) (attrs : Option (List String)) :
   cases attrs with
   | none =>
     simp only [Option.isNone_none, if_true, Option.getD_some, key, pure_bind, bind_pure]
-    split <;> rfl
   | some l =>
     simp only [Option.isNone_some, Bool.false_eq_true, if_false, Option.getD_some, key, pure_bind, bind_pure,
       validate_loop f.columns f rfl l]
-    congr 1
 
 end SSJ.Gen2
